@@ -20,6 +20,7 @@ FIXED = [
  ("F35", ["C11"], "87bcfcd", "chef with a callable recipe crashed in cook(): output field names stored under a misspelt attribute"),
  ("F38", ["C11"], "395060b", "chef with a callable recipe raised AttributeError on the file-name test before reaching the callable branch"),
  ("F39", ["C11"], "1b30dd4", "chef HRR / ENT with kept fields raised in np.concatenate (3D new field joined to 4D kept data)"),
+ ("F55", ["C11", "C14"], "2c5d0c1", "chef wrote the array returned by a user recipe as it is when no field is kept: a recipe returning a boolean mask, integer flags or float32 gave binary files with the wrong byte count (invalid plotfile)"),
  ("F14", ["C11", "C14"], "01c3a28", "chef wrote kept-then-new data under new-then-kept names (user recipes) or without the kept names (built-ins)"),
  ("F15", ["C11"], "9cda633", "chef cleaned temperature / mass fractions in place, so kept temp and Y(O2) differed from the input"),
  ("F16", ["C12"], "e66a931", "second parallel chef run in one process reused pathos workers holding the first run's pressure and solution arrays"),
